@@ -140,6 +140,56 @@ def run(rep: common.Report, tier: str, seed: int, replay=None) -> int:
         if c.time_dependent != want_td:
             rep.violation("time_dependent flag is not the disjunction of the operands' flags", {"tree": repr(c)[:200]})
         rep.count(1)
+    # ---- the same object evaluated at a sequence of times (no cache clearing in between): every value must be the
+    # operator tree applied to the RAW leaf functions at that time (not to the operands' possibly cached values)
+    def _no_z(f):
+        def g(x, y, z, t):
+            if z is not None:
+                raise TypeError("2-D parameter called with z")
+            return f(x, y, t)
+        return g
+    RAW = {id(leaves[0]): _no_z(lambda x, y, t: f2(x, y)), id(leaves[1]): lambda x, y, z, t: f3(x, y, z),
+           id(leaves[2]): _no_z(lambda x, y, t: ft(x, y, t=t))}
+
+    def raw_value(o, x, y, z, t):
+        if isinstance(o, CompositeParameter):
+            return o.operator(raw_value(o.left, x, y, z, t), raw_value(o.right, x, y, z, t))
+        if isinstance(o, Parameter):
+            return RAW[id(o)](x, y, z, t)
+        return o
+
+    base_times = [0.125, 250.0001, 250.0002, 250.0001, 1e6 + 0.5, 1e6 + 0.25, 3.0, 3, np.float64(3.0), 3.0000000001,
+                  1e-9, 1.0000001e-9, 0.0, -0.0, 7.25, 7.250000000000001]
+    td_trees = [c for c in d1 + d2 if c.time_dependent]
+    nseq = 0
+    for c in rng.sample(td_trees, 400 if tier == "quick" else 4000):
+        times = list(base_times)
+        rng.shuffle(times)
+        for arr, wz in ((False, False), (True, False), (False, True)):
+            x, y = (np.array([X, X + 1, 2 * X]), np.array([Y, Y + 0.5, 3 * Y])) if arr else (X, Y)
+            z = (np.array([Z, Z, Z + 1]) if arr else Z) if wz else None
+            for tt in times:
+                with warnings.catch_warnings():
+                    warnings.simplefilter("ignore")
+                    try:
+                        want = ("val", raw_value(c, x, y, z, float(tt)))
+                    except (ZeroDivisionError, OverflowError, TypeError) as e:
+                        want = (type(e).__name__, None)
+                    try:
+                        got = ("val", c(x, y, z, t=tt))
+                    except (ZeroDivisionError, OverflowError, TypeError) as e:
+                        got = (type(e).__name__, None)
+                nseq += 1
+                same = got[0] == want[0] and (got[0] != "val" or np.array_equal(np.asarray(got[1]), np.asarray(want[1]), equal_nan=True))
+                if not same and nbad < 20:
+                    nbad += 1
+                    rep.violation("composite evaluated at a sequence of times returns a value that is not the operator tree "
+                                  "applied to the leaf functions at that time (stale cache entry)",
+                                  {"tree": repr(c)[:200], "time": repr(tt), "times_before": [repr(u) for u in times[:times.index(tt)]],
+                                   "array": arr, "with_z": wz, "got": str(got)[:80], "want": str(want)[:80]})
+        c._clear_cache()
+    rep.count(nseq)
+    rep.coverage["time_sequence_evaluations"] = nseq
     # pickling, caches
     for c in d1 + rng.sample(d2, 1500 if tier == "quick" else 20000):
         try:
